@@ -236,6 +236,7 @@ def run(unit, features=(), repo=REPO, seed=None, rlimit=40, extra_args=(), tag="
                 inner = dict(inner, is_primary=sp.get("is_primary"), label=sp.get("label"))
                 sp, seen = inner, seen + 1
             return sp
+        spans_orig = spans
         spans = [_callsite(sp) for sp in spans]
         prim = [s for s in spans if s.get("is_primary")]
         if prim:
@@ -258,7 +259,8 @@ def run(unit, features=(), repo=REPO, seed=None, rlimit=40, extra_args=(), tag="
         if d.fn:
             d.fn_name = d.fn["name"]
         # clause: any span line that is a woven clause line
-        for s in sorted(spans, key=lambda s: 0 if "failed th" in (s.get("label") or "") else 1):
+        # (a labelled clause may sit inside a macro definition of the template: look at the spans as reported, too)
+        for s in sorted(spans + [x for x in spans_orig if x not in spans], key=lambda s: 0 if "failed th" in (s.get("label") or "") else 1):
             gl = s["line_start"]
             # a clause may span several generated lines: the label sits on every one of them
             o = linemap[gl - 1] if 0 < gl <= len(linemap) else None
